@@ -38,6 +38,7 @@ import (
 	"sort"
 	"strconv"
 	"strings"
+	"sync/atomic"
 
 	"github.com/0chain/common/core/statecache"
 	"github.com/0chain/common/core/util"
@@ -53,7 +54,16 @@ const (
 // bval is a mutable byte-slice value with identity; Clone is a deep copy.
 type bval struct{ b []byte }
 
-func (v *bval) Clone() statecache.Value { return &bval{b: append([]byte(nil), v.b...)} }
+// bvalOnClone, when set, observes every Clone of a bval (suite c08 uses it to learn the order in which commit()
+// visits a block's keys).
+var bvalOnClone atomic.Pointer[func(v *bval)]
+
+func (v *bval) Clone() statecache.Value {
+	if f := bvalOnClone.Load(); f != nil {
+		(*f)(v)
+	}
+	return &bval{b: append([]byte(nil), v.b...)}
+}
 func (v *bval) CopyFrom(o interface{}) bool {
 	if ov, ok := o.(*bval); ok {
 		v.b = append([]byte(nil), ov.b...)
@@ -366,6 +376,11 @@ func (w *scWorld) newBlock(bid, hash, prev string) *scBH {
 
 func (w *scWorld) commitBlock(b *scBH) {
 	b.bc.Commit()
+	w.recordCommit(b)
+}
+
+// recordCommit updates the oracle's tree for a Commit call on b that has been issued (first effective commit wins).
+func (w *scWorld) recordCommit(b *scBH) {
 	if _, dup := w.T[b.hash]; dup {
 		w.tags["commit:duplicate"] = true
 		return
